@@ -107,6 +107,9 @@ type spec struct {
 	ForceSize   int               `json:"force_flush_size"`
 	Faults      []fault           `json:"flush_rpc_faults"`
 	LoseFrom    int               `json:"lose_every_flush_rpc_from"` // -1 = never
+	// LoseUntilError: the loss ends as soon as Flush/FlushWait has reported an error to the driver (the
+	// store is reachable again when the application goes on to Commit or Rollback)
+	LoseUntilError bool `json:"lose_until_error_reported"`
 	ConflictKey string            `json:"conflict_key,omitempty"`
 	ResolveErr  int               `json:"resolve_rpc_fault"` // n-th ResolveLock of the txn gets a fault (-1 none)
 	ResolveKind int               `json:"resolve_rpc_fault_kind"`
@@ -257,12 +260,22 @@ func gen(rng *rand.Rand, id, prefixNo int) *spec {
 			s.Faults = append(s.Faults, f)
 		}
 	}
+	var written []string
+	for _, st := range s.Steps {
+		if st.Op == "set" || st.Op == "del" {
+			written = append(written, st.Key)
+		}
+	}
 	switch x := rng.Intn(20); {
 	case x == 0:
 		s.LoseFrom = rng.Intn(4)
-	case x == 1 && len(writeKeys) > 0:
-		s.ConflictKey = writeKeys[rng.Intn(len(writeKeys))]
-	case x < 5:
+	case x == 1:
+		s.LoseFrom = rng.Intn(4)
+		s.LoseUntilError = true
+		s.End = "commit"
+	case x == 2 && len(written) > 0:
+		s.ConflictKey = written[rng.Intn(len(written))]
+	case x < 6:
 		s.ResolveErr = rng.Intn(3)
 		s.ResolveKind = []int{fNotLeader, fSplit, fSplit}[rng.Intn(3)]
 	}
@@ -280,6 +293,7 @@ type plan struct {
 	nResolve int
 	held     []chan struct{}
 	release  bool // release mode: nothing is held
+	loseOver bool // the loss of Flush RPCs has ended
 	counts   map[string]int
 }
 
@@ -308,7 +322,7 @@ func (p *plan) decide(c *uni.Call) uni.Action {
 	}
 	n := p.nFlush
 	p.nFlush++
-	if p.s.LoseFrom >= 0 && n >= p.s.LoseFrom {
+	if p.s.LoseFrom >= 0 && n >= p.s.LoseFrom && !p.loseOver {
 		p.counts["flush:lost-for-good"]++
 		return uni.Action{Kind: uni.DropReq}
 	}
@@ -632,6 +646,11 @@ loop:
 		}
 	}
 	_ = stepNo
+	if rec.flushErr != "" && s.LoseUntilError {
+		p.mu.Lock()
+		p.loseOver = true
+		p.mu.Unlock()
+	}
 	// end of the transaction
 	rec.ended = s.End
 	if s.End == "commit" {
@@ -1090,6 +1109,14 @@ func runUniverse(t *testing.T, r *vrep.Report, rng *rand.Rand, uniNo, nCases int
 		if s.LoseFrom >= 0 {
 			r.Count("programs_with_flush_lost_for_good", 1)
 		}
+		for _, x := range rec.shape {
+			if x == "flush:threshold" {
+				r.Count("flushes_threshold_driven", 1)
+			}
+		}
+		if s.LoseFrom >= 0 || s.ConflictKey != "" || rec.endErr != "" || rec.flushErr != "" {
+			t.Logf("case %d %s end=%s committed=%v endErr=%q flushErr=%q loseFrom=%d conflict=%q(%v) faults=%v trace=%v", s.ID, s.Shape, rec.ended, rec.committed, rec.endErr, rec.flushErr, s.LoseFrom, s.ConflictKey, rec.conflictCommitted, rec.faults, rec.shape)
+		}
 		r.Count("flushes_triggered_by_driver", len(rec.gens))
 		r.Count("flush_rpcs", ws.flushRPCs)
 		r.Count("flush_rpcs_applied", ws.applied)
@@ -1133,17 +1160,18 @@ func TestVerifC16(t *testing.T) {
 	defer failpoint.Disable("tikvclient/fastBackoffBySkipSleep")
 	rng := vrep.Rand("c16-e2e")
 	nUni := vrep.Pick(2, 8)
-	nCases := vrep.Pick(70, 160)
+	nCases := vrep.Pick(300, 600)
 	for i := 0; i < nUni; i++ {
 		runUniverse(t, r, rng, i, nCases, i*nCases)
 		r.Flush()
 	}
-	r.Floor("programs", 100)
-	r.Floor("commit_ok", 40)
-	r.Floor("end:rollback", 20)
-	r.Floor("programs:single-key", 10)
-	r.Floor("programs:max-on-border", 20)
-	r.Floor("generations_on_wire", 150)
+	r.Floor("programs", 400)
+	r.Floor("commit_ok", 150)
+	r.Floor("end:rollback", 80)
+	r.Floor("programs:single-key", 40)
+	r.Floor("programs:max-on-border", 80)
+	r.Floor("generations_on_wire", 500)
+	r.Floor("flushes_threshold_driven", 20)
 	r.Floor("read:get:flushed", 20)
 	r.Floor("read:bget:flushed", 40)
 	r.Floor("read:bget:flushing", 20)
